@@ -324,7 +324,10 @@ class MinGenSet():
         # Solve for increasing numbers of elements in the generating set
         # A generating set with len(numbers) + 1 elements always exists (the consecutive differences of the
         # sorted numbers, plus total - max), so the search must go up to that size, inclusive
-        for k in range(self.lowerbound, max(self.lowerbound, len(self.initial_numbers) + 1) + 1):
+        # With partition constraints more elements can be needed: cutting [0, total] at every number and at the prefix
+        # sums of every partition constraint always works, which adds at most len(constraint) - 1 elements per constraint
+        max_num_elements = len(self.initial_numbers) + 1 + sum(max(len(c) - 1, 0) for c in (self.partition_constraints or []))
+        for k in range(self.lowerbound, max(self.lowerbound, max_num_elements) + 1):
             self._create_solver(k=k)
             self.solver.optimize()
 
